@@ -80,6 +80,16 @@ func (sd *SignedData) Verify(externalContent []byte, skipDigests bool) (Signatur
 			}
 			return Signature{}, err
 		}
+		if len(si.AuthenticatedAttributes) != 0 {
+			// RFC 5652 5.3/11.1: when signed attributes are present they must include a
+			// content-type attribute equal to the eContentType
+			var ctype asn1.ObjectIdentifier
+			if err := si.AuthenticatedAttributes.GetOne(OidAttributeContentType, &ctype); err != nil {
+				return Signature{}, err
+			} else if !ctype.Equal(sd.ContentInfo.ContentType) {
+				return Signature{}, errors.New("pkcs7: content type attribute does not match the content type")
+			}
+		}
 		sig = Signature{
 			SignerInfo:    &si,
 			Certificate:   cert,
